@@ -25,6 +25,82 @@ REGEX_SPECS = [
     ("slip_esc", "iogateway/SLIPFramedDataMessageIOGateway.cpp", r"\bSLIP_ESC\s*=\s*(0x[0-9A-Fa-f]+|\d+)\s*;", "int"),
     ("slip_escape_end", "iogateway/SLIPFramedDataMessageIOGateway.cpp", r"\bSLIP_ESCAPE_END\s*=\s*(0x[0-9A-Fa-f]+|\d+)\s*;", "int"),
     ("slip_escape_esc", "iogateway/SLIPFramedDataMessageIOGateway.cpp", r"\bSLIP_ESCAPE_ESC\s*=\s*(0x[0-9A-Fa-f]+|\d+)\s*;", "int"),
+    # --- Message codec size tables (C01/C08): the `return <expr>;` of each case, as text
+    ("fsz_BOOL", "message/Message.cpp", r"static uint32 GetFlattenedSizeForFixedSizeType\(uint32 typeCode\)\s*\{[^}]*?case B_BOOL_TYPE:\s*return\s+([^;]+?)\s*;", "str"),
+    ("fsz_DOUBLE", "message/Message.cpp", r"static uint32 GetFlattenedSizeForFixedSizeType\(uint32 typeCode\)\s*\{[^}]*?case B_DOUBLE_TYPE:\s*return\s+([^;]+?)\s*;", "str"),
+    ("fsz_POINTER", "message/Message.cpp", r"static uint32 GetFlattenedSizeForFixedSizeType\(uint32 typeCode\)\s*\{[^}]*?case B_POINTER_TYPE:\s*return\s+([^;]+?)\s*;", "str"),
+    ("fsz_POINT", "message/Message.cpp", r"static uint32 GetFlattenedSizeForFixedSizeType\(uint32 typeCode\)\s*\{[^}]*?case B_POINT_TYPE:\s*return\s+([^;]+?)\s*;", "str"),
+    ("fsz_RECT", "message/Message.cpp", r"static uint32 GetFlattenedSizeForFixedSizeType\(uint32 typeCode\)\s*\{[^}]*?case B_RECT_TYPE:\s*return\s+([^;]+?)\s*;", "str"),
+    ("fsz_FLOAT", "message/Message.cpp", r"static uint32 GetFlattenedSizeForFixedSizeType\(uint32 typeCode\)\s*\{[^}]*?case B_FLOAT_TYPE:\s*return\s+([^;]+?)\s*;", "str"),
+    ("fsz_INT64", "message/Message.cpp", r"static uint32 GetFlattenedSizeForFixedSizeType\(uint32 typeCode\)\s*\{[^}]*?case B_INT64_TYPE:\s*return\s+([^;]+?)\s*;", "str"),
+    ("fsz_INT32", "message/Message.cpp", r"static uint32 GetFlattenedSizeForFixedSizeType\(uint32 typeCode\)\s*\{[^}]*?case B_INT32_TYPE:\s*return\s+([^;]+?)\s*;", "str"),
+    ("fsz_INT16", "message/Message.cpp", r"static uint32 GetFlattenedSizeForFixedSizeType\(uint32 typeCode\)\s*\{[^}]*?case B_INT16_TYPE:\s*return\s+([^;]+?)\s*;", "str"),
+    ("fsz_INT8", "message/Message.cpp", r"static uint32 GetFlattenedSizeForFixedSizeType\(uint32 typeCode\)\s*\{[^}]*?case B_INT8_TYPE:\s*return\s+([^;]+?)\s*;", "str"),
+    ("esz_BOOL", "message/Message.cpp", r"uint32 Message :: GetElementSize\(uint32 type\)\s*\{[^}]*?case B_BOOL_TYPE:\s*return\s+([^;]+?)\s*;", "str"),
+    ("esz_DOUBLE", "message/Message.cpp", r"uint32 Message :: GetElementSize\(uint32 type\)\s*\{[^}]*?case B_DOUBLE_TYPE:\s*return\s+([^;]+?)\s*;", "str"),
+    ("esz_POINTER", "message/Message.cpp", r"uint32 Message :: GetElementSize\(uint32 type\)\s*\{[^}]*?case B_POINTER_TYPE:\s*return\s+([^;]+?)\s*;", "str"),
+    ("esz_POINT", "message/Message.cpp", r"uint32 Message :: GetElementSize\(uint32 type\)\s*\{[^}]*?case B_POINT_TYPE:\s*return\s+([^;]+?)\s*;", "str"),
+    ("esz_RECT", "message/Message.cpp", r"uint32 Message :: GetElementSize\(uint32 type\)\s*\{[^}]*?case B_RECT_TYPE:\s*return\s+([^;]+?)\s*;", "str"),
+    ("esz_FLOAT", "message/Message.cpp", r"uint32 Message :: GetElementSize\(uint32 type\)\s*\{[^}]*?case B_FLOAT_TYPE:\s*return\s+([^;]+?)\s*;", "str"),
+    ("esz_INT64", "message/Message.cpp", r"uint32 Message :: GetElementSize\(uint32 type\)\s*\{[^}]*?case B_INT64_TYPE:\s*return\s+([^;]+?)\s*;", "str"),
+    ("esz_INT32", "message/Message.cpp", r"uint32 Message :: GetElementSize\(uint32 type\)\s*\{[^}]*?case B_INT32_TYPE:\s*return\s+([^;]+?)\s*;", "str"),
+    ("esz_INT16", "message/Message.cpp", r"uint32 Message :: GetElementSize\(uint32 type\)\s*\{[^}]*?case B_INT16_TYPE:\s*return\s+([^;]+?)\s*;", "str"),
+    ("esz_INT8", "message/Message.cpp", r"uint32 Message :: GetElementSize\(uint32 type\)\s*\{[^}]*?case B_INT8_TYPE:\s*return\s+([^;]+?)\s*;", "str"),
+    ("esz_MESSAGE", "message/Message.cpp", r"uint32 Message :: GetElementSize\(uint32 type\)\s*\{[^}]*?case B_MESSAGE_TYPE:\s*return\s+([^;]+?)\s*;", "str"),
+    ("esz_STRING", "message/Message.cpp", r"uint32 Message :: GetElementSize\(uint32 type\)\s*\{[^}]*?case B_STRING_TYPE:\s*return\s+([^;]+?)\s*;", "str"),
+    ("fsz_default", "message/Message.cpp", r"static uint32 GetFlattenedSizeForFixedSizeType\(uint32 typeCode\)\s*\{[^}]*?default:\s*return\s+([^;]+?)\s*;", "str"),
+    ("esz_default", "message/Message.cpp", r"uint32 Message :: GetElementSize\(uint32 type\)\s*\{[^}]*?default:\s*return\s+([^;]+?)\s*;", "str"),
+    ("single_bool_flat_size", "message/Message.cpp", r"uint32 MessageField :: SingleFlattenedSize\(\) const\s*\{[^}]*?if \(_typeCode == B_BOOL_TYPE\) return\s+([^;]+?)\s*;", "str"),
+    # --- gateways (C03): constants that live inside the .cpp files
+    ("gw_header_words", "iogateway/MessageIOGateway.cpp", r"GetHeaderSize\(\)\s*const\s*\{\s*return\s+(\d+)\s*\*\s*sizeof\(uint32\)\s*;", "int"),
+    ("gw_scratch_size", "iogateway/MessageIOGateway.cpp", r"_scratchRecvBufferSizeBytes\s*=\s*(\d+)\s*;", "int"),
+    ("gw_zlib_min_size", "iogateway/MessageIOGateway.cpp", r"ret\(\)->GetNumBytes\(\)\s*>=\s*(\d+)\)\s*//\s*below", "int"),
+    ("text_buf_size", "iogateway/PlainTextMessageIOGateway.cpp", r"const\s+uint32\s+tempBufSize\s*=\s*(\d+)\s*;", "int"),
+    ("text_max_recurse", "iogateway/PlainTextMessageIOGateway.cpp", r"recurseDepth\s*>=\s*(\d+)\)", "int"),
+    ("raw_max_scratch", "iogateway/RawDataMessageIOGateway.cpp", r"maxScratchSpaceSize\s*=\s*(\d+)\s*;", "int"),
+    ("slip_pending_initial", "iogateway/SLIPFramedDataMessageIOGateway.cpp", r"_pendingBuffer\s*=\s*GetByteBufferFromPool\((\d+)\)", "int"),
+    # --- String growth policy (C17): constants inside util/String.cpp
+    ("string_small_growth_threshold", "util/String.cpp", r"if\s*\(bufLen\s*<\s*(\d+)\)\s*return\s+bufLen\+GetMaxShortStringLength\(\)", "int"),
+    ("string_page_size", "util/String.cpp", r"STRING_PAGE_SIZE\s*=\s*(\d+)\s*;", "int"),
+    ("string_malloc_overhead", "util/String.cpp", r"STRING_MALLOC_OVERHEAD\s*=\s*(\d+)\s*;", "int"),
+    # --- wildcard patterns (C15): character tables inside regex/StringMatcher.cpp.  kind "chars:<inner regex>":
+    #     the outer regex's group 1 selects a region of text, every match of the inner regex in that region
+    #     contributes its groups (C char literals) to a flat `list N` of character codes.
+    ("regex_tokens_always", "regex/StringMatcher.cpp",
+     r"bool IsRegexToken\(char c, bool isFirstCharInString\)\s*\{\s*switch\(c\)\s*\{([\s\S]*?)return true;", r"chars:case\s+'(\\?.)'\s*:"),
+    ("regex_tokens_first", "regex/StringMatcher.cpp",
+     r"bool IsRegexToken\(char c, bool isFirstCharInString\)\s*\{\s*switch\(c\)\s*\{[\s\S]*?return true;([\s\S]*?)return isFirstCharInString;", r"chars:case\s+'(\\?.)'\s*:"),
+    ("regex_tokens_ncases", "regex/StringMatcher.cpp",
+     r"bool IsRegexToken\(char c, bool isFirstCharInString\)\s*\{\s*switch\(c\)\s*\{([\s\S]*?)default:", r"count:case\s+'(\\?.)'\s*:"),
+    ("sp_replace", "regex/StringMatcher.cpp",     # flat pairs (from, to):      case 'x':  c = 'y';  break;
+     r"for \(const char \* ptr = str; \*ptr != '\\0'; ptr\+\+\)[\s\S]*?switch\(c\)\s*\{([\s\S]*?)default:", r"chars:case\s+'(\\?.)'\s*:\s*c\s*=\s*'(\\?.)'\s*;\s*break;"),
+    ("sp_prefix", "regex/StringMatcher.cpp",      # flat pairs (char, prefix):  case 'x':  regexPattern += 'y';  break;
+     r"for \(const char \* ptr = str; \*ptr != '\\0'; ptr\+\+\)[\s\S]*?switch\(c\)\s*\{([\s\S]*?)default:", r"chars:case\s+'(\\?.)'\s*:\s*regexPattern\s*\+=\s*'(\\?.)'\s*;\s*break;"),
+    ("sp_escape", "regex/StringMatcher.cpp",      # chars that switch escapeMode on:  case 'x':  escapeMode = true;  break;
+     r"for \(const char \* ptr = str; \*ptr != '\\0'; ptr\+\+\)[\s\S]*?switch\(c\)\s*\{([\s\S]*?)default:", r"chars:case\s+'(\\?.)'\s*:\s*escapeMode\s*=\s*true\s*;\s*break;"),
+    ("sp_ncases", "regex/StringMatcher.cpp",      # number of case labels in that switch (so an unmodelled new case breaks a proof)
+     r"for \(const char \* ptr = str; \*ptr != '\\0'; ptr\+\+\)[\s\S]*?switch\(c\)\s*\{([\s\S]*?)default:", r"count:case\s+'(\\?.)'\s*:"),
+    ("sp_regex_prefix", "regex/StringMatcher.cpp", r"regexPattern\s*=\s*\"([^\"]*)\"\s*;", "cstr"),
+    ("sp_regex_suffix", "regex/StringMatcher.cpp", r"regexPattern\s*\+=\s*\"([^\"]*)\"\s*;", "cstr"),
+    ("sp_negate_char", "regex/StringMatcher.cpp", r"if \(str\[0\] == '(\\?.)'\)\s*\{\s*_flags\.SetBit\(STRINGMATCHER_FLAG_NEGATE\)", "cchar"),
+    ("sp_rawregex_char", "regex/StringMatcher.cpp", r"if \(str\[0\] == '(\\?.)'\) str\+\+;\s*//\s*note that I deliberately", "cchar"),
+    ("sp_range_open", "regex/StringMatcher.cpp", r"if \(str\[0\] == '(\\?.)'\)\s*\{\s*const char \* rBracket", "cchar"),
+    ("sp_range_close", "regex/StringMatcher.cpp", r"rBracket = strchr\(str\+1, '(\\?.)'\)", "cchar"),
+    ("sp_range_dash", "regex/StringMatcher.cpp", r"dash = strchr\(clause, '(\\?.)'\)", "cchar"),
+    ("sp_range_seps", "regex/StringMatcher.cpp", r"StringTokenizer clauses\(&str\[1\], \"([^\"]*)\"\)", "cstr"),
+    ("sp_skip_escape_pair", "regex/StringMatcher.cpp",   # [a; b]: a leading "ab" loses its first character ("\<" -> "<")
+     r"(if \(\(str\[0\] == '\\?.'\)&&\(str\[1\] == '\\?.'\)\) str\+\+;)", r"chars:'(\\?.)'"),
+    ("sp_range_all_char", "regex/StringMatcher.cpp", r"else if \(clause\[0\] != '(\\?.)'\) min = max =", "cchar"),
+    ("cw_rawregex_char", "regex/StringMatcher.cpp", r"if \(str\[0\] == '(\\?.)'\) return true;", "cchar"),
+    ("cw_ignored_char", "regex/StringMatcher.cpp", r"\(isEscape == false\)&&\(\*s != '(\\?.)'\)&&\(prevCharWasEscape == false\)", "cchar"),
+    ("cw_comma_char", "regex/StringMatcher.cpp", r"if \(\(\*s == '(\\?.)'\)&&\(optRetOnlySpecialCharIsCommas != NULL\)\) sawComma = true;", "cchar"),
+    # --- packet tunnels (C12): constants inside iogateway/PacketTunnelIOGateway.cpp / MiniPacketTunnelIOGateway.cpp
+    ("tunnel_fragment_header_words", "iogateway/PacketTunnelIOGateway.cpp", r"FRAGMENT_HEADER_SIZE\s*=\s*(\d+)\s*\*\s*\(sizeof\(uint32\)\)\s*;", "int"),
+    ("tunnel_max_receive_states", "iogateway/PacketTunnelIOGateway.cpp", r"MAX_NUM_RECEIVE_STATES\s*=\s*(\d+)\s*;", "int"),
+    ("mini_packet_header_words", "iogateway/MiniPacketTunnelIOGateway.cpp", r"PACKET_HEADER_SIZE\s*=\s*(\d+)\s*\*\s*\(sizeof\(uint32\)\)\s*;", "int"),
+    ("mini_chunk_header_words", "iogateway/MiniPacketTunnelIOGateway.cpp", r"CHUNK_HEADER_SIZE\s*=\s*(\d+)\s*\*\s*\(sizeof\(uint32\)\)\s*;", "int"),
+    ("mini_packet_id_modulus", "iogateway/MiniPacketTunnelIOGateway.cpp", r"_sendPacketIDCounter\s*=\s*\(_sendPacketIDCounter\+1\)\s*%\s*(\d+)\s*;", "int"),
+    ("mini_clevel_shift", "iogateway/MiniPacketTunnelIOGateway.cpp", r"\(\(\(uint32\)_sendCompressionLevel\)<<(\d+)\)", "int"),
 ]
 
 
@@ -33,6 +109,18 @@ def c_int(v):
     if re.fullmatch(r'0[0-7]+', v):
         return int(v, 8)
     return int(v, 0)
+
+
+def c_char_code(lit):
+    """code of the body of a C character literal such as  a  \\\\  \\'  \\n  (used by the C15 tables)"""
+    esc = {"n": 10, "t": 9, "r": 13, "0": 0, "\\": 92, "'": 39, '"': 34, "a": 7, "b": 8, "f": 12, "v": 11}
+    if len(lit) == 2 and lit[0] == "\\":
+        if lit[1] not in esc:
+            raise RuntimeError("translator: unknown character escape %r" % lit)
+        return esc[lit[1]]
+    if len(lit) != 1:
+        raise RuntimeError("translator: not a single character literal: %r" % lit)
+    return ord(lit)
 
 
 def _read(repo, rel):
@@ -93,6 +181,23 @@ def generate(repo):
         elif kind == "str":
             out.append("Definition c_%s : string := %s%%string." % (name, coq_string(v)))
             info[name] = v
+        elif kind.startswith("chars:") or kind.startswith("count:"):   # C15: character tables as `list N`
+            codes = []
+            for mm in re.finditer(kind[6:], v):
+                codes += [c_char_code(g) for g in mm.groups()]
+            if kind.startswith("count:"):
+                out.append("Definition c_%s : N := %d%%N." % (name, len(codes)))
+                info[name] = len(codes)
+            else:
+                out.append("Definition c_%s : list N := [%s]%%N." % (name, "; ".join(map(str, codes))))
+                info[name] = codes
+        elif kind == "cchar":
+            out.append("Definition c_%s : N := %d%%N." % (name, c_char_code(v)))
+            info[name] = c_char_code(v)
+        elif kind == "cstr":
+            codes = [c_char_code(x) for x in re.findall(r"\\.|[^\\]", v)]
+            out.append("Definition c_%s : list N := [%s]%%N." % (name, "; ".join(map(str, codes))))
+            info[name] = codes
     out.append("")
     return "\n".join(out), info
 
